@@ -124,7 +124,7 @@ func TestSim(t *testing.T) {
 	e.Cfg = simrt.Config{Strategy: -1, KeepTrace: *flagTrace, MaxSteps: 300000, MaxSimTime: 3 * time.Hour}
 	// wall-clock watchdog, outside the bubble (real time)
 	go func() {
-		time.Sleep(60 * time.Second)
+		time.Sleep(240 * time.Second) // real time; generous: the machine may be heavily loaded
 		fmt.Printf("RESULT {\"prop\":%q,\"seed\":%d,\"verdict\":\"error\",\"detail\":\"wall-clock watchdog\"}\n", e.Prop, e.Seed)
 		os.Exit(3)
 	}()
